@@ -20,6 +20,10 @@ the implementation may have to change the schema first, so the prologue (which r
 (eager start) and CREATE/ALTER/DROP statements naming table session are scheduling points ('S').  All interleavings for
 N=2 (N=3 in the thorough tier), same oracle, keys "N=<n>:released-layout:<class>".
 
+Third initial state ('emptied'): the warmed database with every session row deleted - the first sessions of a database,
+where an id rule that differs on an empty table (seed the numbering, count==0 shortcut) is the only one in force.  All
+interleavings for N=2 (N=3 thorough), same oracle, keys "N=<n>:emptied-layout:<class>".
+
 Adder dimension: a third kind of actor, the ADDER - a worker that already owns a session (created unscheduled before
 every schedule) and runs Session.add(<tiny DEX from gen/dexgen.py>) - is interleaved with 1 and 2 session creators.  The
 adder's scheduling points are every SQL statement it executes plus the entries of the two long computations of add():
@@ -416,8 +420,18 @@ class Env:
                     con.execute("INSERT INTO session (id) VALUES (?)", (i,))
             finally:
                 con.close()
+            t3 = os.path.join(self.pool.root, "template_emptied")   # warmed schema, no session yet
+            shutil.copytree(t, t3)
+            con = sqlite3.connect(os.path.join(t3, "s.db"), isolation_level=None)
+            try:
+                con.execute("DELETE FROM session").fetchall()
+            finally:
+                con.close()
+            if _read_rows(os.path.join(t3, "s.db")) != []:
+                raise sched.SchedError("emptied template still has session rows")
             self.inits = {"warmed": Init("warmed", t, pre, True),
-                          "released": Init("released", t2, list(RELEASED_ROWS), False)}
+                          "released": Init("released", t2, list(RELEASED_ROWS), False),
+                          "emptied": Init("emptied", t3, [], True)}
             self.inits["adder"] = AdderInit(self.inits["warmed"])
             if _read_rows(os.path.join(t2, "s.db")) != RELEASED_ROWS:
                 raise sched.SchedError("released-layout template not built as intended")
@@ -571,6 +585,7 @@ def sample_of(n, run, verdict):
 # ---- direct exploration -------------------------------------------------------------------------------
 def shards(ctx):
     return ([("explore", 2), ("explore", 3), ("released", 2)] + ([("released", 3)] if ctx.thorough else [])
+            + [("emptied", 2)] + ([("emptied", 3)] if ctx.thorough else [])
             + [("adder", 1), ("adder", 2)]
             + [("tlc", n) for n in (TLC_N_THOROUGH if ctx.thorough else TLC_N_QUICK)])
 
@@ -582,6 +597,8 @@ def run_explore(ctx, n, init_name="warmed"):
     pre = init.pre
     tag = "" if init_name == "warmed" else init_name + "_"           # counters
     ktag = "" if init_name == "warmed" else init_name + "-layout:"   # violation keys
+    idesc = {"released": "database in the released layout (fixed DDL, rows %r). " % (pre,),
+             "emptied": "database created by the code under test whose session table is empty (no session yet). "}
     ex = env.sched.explore(env.pool, n, init.fresh, env.observe, rerun=True, lazy=init.lazy)
     for e in ex.errors:
         acc.harness_error("%sN=%d: %s" % (ktag, n, e))
@@ -611,7 +628,7 @@ def run_explore(ctx, n, init_name="warmed"):
         if verdict is not None:
             acc.violation("N=%d:%s%s" % (n, ktag, cls),
                           {"n": n, "init": init_name, "schedule": [w + 1 for w in sched], "text": schedule_text(run)},
-                          ("initial state: database in the released layout (fixed DDL, rows %r). " % pre if ktag else "") + verdict)
+                          ("initial state: " + idesc[init_name] if ktag else "") + verdict)
         if i == 0 or i == pick or (verdict is not None and not bad_sampled):
             acc.sample(dict(sample_of(n, run, verdict), init=init_name))
             bad_sampled = bad_sampled or verdict is not None
@@ -1015,8 +1032,8 @@ def run_shard(ctx, shard):
     try:
         if shard[0] == "explore":
             return run_explore(ctx, shard[1])
-        if shard[0] == "released":
-            return run_explore(ctx, shard[1], "released")
+        if shard[0] in ("released", "emptied"):
+            return run_explore(ctx, shard[1], shard[0])
         if shard[0] == "adder":
             return run_adder(ctx, shard[1])
         return run_tlc_shard(ctx, shard[1])
@@ -1036,9 +1053,14 @@ def finalize(ctx, acc):
         r2 = acc.extra.get("schedules_released_N2", 0)
         if r2 < 2 and not any(k.startswith("N=2:released-layout:deadlock") for k in acc.viol):
             acc.harness_error("released layout, N=2: fewer than two complete schedules (%d): the space degenerated" % r2)
+        e2 = acc.extra.get("schedules_emptied_N2", 0)
+        if e2 < 2 and not any(k.startswith("N=2:emptied-layout:deadlock") for k in acc.viol):
+            acc.harness_error("emptied table, N=2: fewer than two complete schedules (%d): the space degenerated" % e2)
     acc.note("initial states: 'warmed' = database created by one Session() of the code under test (TLC cross-check runs on "
              "this one); 'released' = database built by the check with the fixed released DDL (table session(id), rows %r), "
-             "prologue is a step of its own and CREATE/ALTER/DROP on session are scheduling points" % (RELEASED_ROWS,))
+             "prologue is a step of its own and CREATE/ALTER/DROP on session are scheduling points; 'emptied' = the warmed "
+             "database with every session row deleted (the first sessions of a database: rules that differ on an empty "
+             "table)" % (RELEASED_ROWS,))
     if acc.extra.get("tlc_paths_replayed", 0) and acc.extra.get("tlc_paths_conform", 0) == acc.extra.get("tlc_paths_replayed"):
         for n in (2, 3):
             a, b = acc.extra.get("distinct_states_N%d" % n), acc.extra.get("tlc_states_N%d" % n)
